@@ -38,7 +38,7 @@ def scan(state, groups, tid):
         sol = G.call(s, z, time)
         return (np.asarray(sol["temperature_rad"], float) / Tbc) ** 4, (np.asarray(sol["temperature_mat"], float) / Tbc) ** 4, \
             np.asarray(sol["temperature_rad"], float), np.asarray(sol["temperature_mat"], float)
-    xs = np.array([0.0, 0.1, 0.25, 0.5, 1.0, 2.0, 3.5])
+    xs = np.array([0.0, 0.1, 0.25, 0.5, 1.0, 1.5, 2.0, 2.75, 3.5, 5.0, 7.0])     # into the foot of the wave (u ~ 1e-2 ... 1e-3)
     xs = xs[xs <= max(1.0, 3.0 * math.sqrt(tau / eps) + 1.0)]
     # the solver integrates to an absolute tolerance of 1e-6 in u: a second difference amplifies that by 16/(12 h^2),
     # so the step is as large as the width of the wave allows
